@@ -308,6 +308,14 @@ def analyse(unit, path, text, regions, res, canary_marks=None):
                     props.update(region.props)
             elif region:
                 props.update(region.props)
+        if not props and region is None:
+            # failure inside a non-repository function (lemma / checking harness): it supports the labelled clauses of that function
+            k = line - 1
+            while k >= 0 and not (FN_RE.search(lines[k]) and not lines[k].lstrip().startswith('//')):
+                k -= 1
+            for ll in lines[max(k, 0):line]:
+                for pl, _n in LABEL.findall(ll):
+                    props.update(pl.split(','))
         snippet = span_text(ps)
         failures.append(dict(unit=unit, function=fn, label=label, kind=kind, props=sorted(props), message=msg,
                              out_line=line, repo_file=region.file if region else None, repo_line=repo_line,
